@@ -68,6 +68,7 @@ func lockName(recv string) string {
 type skelWalker struct {
 	p    *pkgSrc
 	tags map[string]bool
+	seq  *[]string // when set, every tag is also appended here in source order
 }
 
 func (w *skelWalker) tag(s string, deferred bool) {
@@ -78,6 +79,11 @@ func (w *skelWalker) tag(s string, deferred bool) {
 		s = "defer-" + s
 	}
 	w.tags[s] = true
+	if w.seq != nil {
+		if n := len(*w.seq); n == 0 || (*w.seq)[n-1] != s {
+			*w.seq = append(*w.seq, s)
+		}
+	}
 }
 
 func (w *skelWalker) call(c *ast.CallExpr, deferred bool) {
@@ -254,6 +260,169 @@ func (w *skelWalker) reads(e ast.Expr) {
 	})
 }
 
+// ---- ordered, structured skeleton ----------------------------------------------------------------
+// The same primitives in source order, with the control structure that contains them: `if{ … }else{ … }`,
+// `for{ … }`, `select{ case: … }`, `switch{ case: … }`, `defer{ … }` (deferred closure), `return`.
+// Structures that contain neither a primitive nor a return are dropped, so code that does not
+// synchronise can change freely.
+
+type ordWalker struct {
+	p   *pkgSrc
+	fn  string
+	out []string
+}
+
+var structTok = map[string]bool{"if{": true, "}else{": true, "}": true, "for{": true, "select{": true, "switch{": true, "case:": true, "defer{": true}
+
+func (o *ordWalker) flat(n ast.Node) {
+	if n == nil {
+		return
+	}
+	w := &skelWalker{p: o.p, tags: map[string]bool{}, seq: &o.out}
+	w.walk(n, o.fn)
+}
+
+func (o *ordWalker) open(tok string) int {
+	o.out = append(o.out, tok)
+	return len(o.out) - 1
+}
+
+// close ends the structure opened at mark; drops it when it holds nothing but structure tokens.
+func (o *ordWalker) close(mark int) {
+	for _, t := range o.out[mark:] {
+		if !structTok[t] {
+			o.out = append(o.out, "}")
+			return
+		}
+	}
+	o.out = o.out[:mark]
+}
+
+func (o *ordWalker) stmts(l []ast.Stmt) {
+	for _, s := range l {
+		o.stmt(s)
+	}
+}
+
+func (o *ordWalker) stmt(s ast.Stmt) {
+	switch s := s.(type) {
+	case nil:
+	case *ast.BlockStmt:
+		o.stmts(s.List)
+	case *ast.LabeledStmt:
+		o.stmt(s.Stmt)
+	case *ast.IfStmt:
+		o.stmt(s.Init)
+		w := &skelWalker{p: o.p, tags: map[string]bool{}, seq: &o.out}
+		w.reads(s.Cond)
+		o.flat(s.Cond)
+		m := o.open("if{")
+		o.stmt(s.Body)
+		if s.Else != nil {
+			e := o.open("}else{")
+			o.stmt(s.Else)
+			if e == len(o.out)-1 {
+				o.out = o.out[:e]
+			}
+		}
+		o.close(m)
+	case *ast.ForStmt:
+		o.stmt(s.Init)
+		m := o.open("for{")
+		o.flat(s.Cond)
+		o.stmt(s.Body)
+		o.stmt(s.Post)
+		o.close(m)
+	case *ast.RangeStmt:
+		o.flat(s.X)
+		m := o.open("for{")
+		o.stmt(s.Body)
+		o.close(m)
+	case *ast.SelectStmt:
+		m := o.open("select{")
+		for _, c := range s.Body.List {
+			cc := c.(*ast.CommClause)
+			k := o.open("case:")
+			o.stmt(cc.Comm)
+			o.stmts(cc.Body)
+			if k == len(o.out)-1 && cc.Comm != nil {
+				o.out = o.out[:k] // a case without primitives (e.g. <-ctx.Done() with an empty body)
+				o.out = append(o.out, "case:")
+			}
+		}
+		o.close(m)
+	case *ast.SwitchStmt:
+		o.stmt(s.Init)
+		o.flat(s.Tag)
+		m := o.open("switch{")
+		for _, c := range s.Body.List {
+			cc := c.(*ast.CaseClause)
+			k := o.open("case:")
+			for _, e := range cc.List {
+				o.flat(e)
+			}
+			o.stmts(cc.Body)
+			if k == len(o.out)-1 {
+				o.out = o.out[:k]
+			}
+		}
+		o.close(m)
+	case *ast.TypeSwitchStmt:
+		m := o.open("switch{")
+		for _, c := range s.Body.List {
+			cc := c.(*ast.CaseClause)
+			k := o.open("case:")
+			o.stmts(cc.Body)
+			if k == len(o.out)-1 {
+				o.out = o.out[:k]
+			}
+		}
+		o.close(m)
+	case *ast.ReturnStmt:
+		for _, e := range s.Results {
+			o.flat(e)
+		}
+		o.out = append(o.out, "return")
+	case *ast.DeferStmt:
+		if fl, ok := s.Call.Fun.(*ast.FuncLit); ok {
+			m := o.open("defer{")
+			o.stmt(fl.Body)
+			o.close(m)
+			return
+		}
+		o.flat(s)
+	case *ast.GoStmt:
+		o.flat(s)
+	default:
+		o.flat(s)
+	}
+}
+
+func genSkeletonOrdered(p *pkgSrc) map[string][]string {
+	res := map[string][]string{}
+	for name, fd := range p.funcs {
+		if !skelFuncs[name] || fd.Body == nil {
+			continue
+		}
+		o := &ordWalker{p: p, fn: name}
+		o.stmt(fd.Body)
+		res[name] = o.out
+		if name == "Conn.CloseRead" {
+			ast.Inspect(fd.Body, func(x ast.Node) bool {
+				if g, ok := x.(*ast.GoStmt); ok {
+					if fl, ok := g.Call.Fun.(*ast.FuncLit); ok {
+						o2 := &ordWalker{p: p, fn: name + ".func1"}
+						o2.stmt(fl.Body)
+						res[name+".func1"] = o2.out
+					}
+				}
+				return true
+			})
+		}
+	}
+	return res
+}
+
 func genSkeleton(p *pkgSrc) (string, error) {
 	res := map[string][]string{}
 	for name, fd := range p.funcs {
@@ -300,6 +469,20 @@ func genSkeleton(p *pkgSrc) (string, error) {
 	for i, n := range names {
 		var q []string
 		for _, t := range res[n] {
+			q = append(q, leanStr(t))
+		}
+		sep := ","
+		if i == len(names)-1 {
+			sep = ""
+		}
+		fmt.Fprintf(&sb, "  (%s, [%s])%s\n", leanStr(n), strings.Join(q, ", "), sep)
+	}
+	sb.WriteString("]\n\n")
+	ord := genSkeletonOrdered(p)
+	sb.WriteString("/-- per Go function: the same primitives in source order inside their control structure. -/\ndef ordered : List (String × List String) := [\n")
+	for i, n := range names {
+		var q []string
+		for _, t := range ord[n] {
 			q = append(q, leanStr(t))
 		}
 		sep := ","
